@@ -179,6 +179,17 @@ fn start_call(client: &Connection, spawn: bool, k: u32, c: &CallCfg) -> Job<bool
         let r = match kind.as_str() {
             "meth" => conn.call_method(None::<()>, "/d", Some(iface), "Work", &(k,)).await,
             "methmut" => conn.call_method(None::<()>, "/d", Some(iface), "WorkMut", &(k,)).await,
+            "methnr" => {
+                // fire and forget: the flag says no reply is owed, the job is over once the message is written
+                let m = zbus::message::Message::method_call("/d", "Work")
+                    .and_then(|b| b.interface(iface))
+                    .and_then(|b| b.with_flags(zbus::message::Flags::NoReplyExpected))
+                    .and_then(|b| b.build(&(k,)));
+                return match m {
+                    Ok(m) => conn.send(&m).await.is_ok(),
+                    Err(_) => false,
+                };
+            }
             "get" => {
                 conn.call_method(None::<()>, "/d", Some("org.freedesktop.DBus.Properties"), "Get", &(iface, prop.as_str())).await
             }
@@ -192,8 +203,11 @@ fn start_call(client: &Connection, spawn: bool, k: u32, c: &CallCfg) -> Job<bool
     })
 }
 
+static NOREPLY: Mutex<Vec<u32>> = Mutex::new(Vec::new());
+
 pub fn run(sc: &Scenario) -> J {
     LOG.lock().unwrap().clear();
+    *NOREPLY.lock().unwrap() = sc.calls.iter().enumerate().filter(|(_, c)| c.kind == "methnr").map(|(i, _)| i as u32 + 1).collect();
     *GATES.lock().unwrap() = Some(HashMap::new());
     *PLAN.lock().unwrap() = sc.calls.iter().map(|c| c.body.clone()).collect();
     let mut pair = Pair::new();
@@ -254,6 +268,9 @@ pub fn run(sc: &Scenario) -> J {
                 continue;
             }
             if j.poll() {
+                if NOREPLY.lock().unwrap().contains(&(i as u32 + 1)) {
+                    continue; // written; `replied` is set from the handler's End event (see ended_noreply)
+                }
                 replied[i] = true;
                 let ok = matches!(j.out, Some(Ok(true)));
                 LOG.lock().unwrap().push(json!({"e": "Reply", "k": i + 1, "ok": ok}));
@@ -348,6 +365,12 @@ pub fn run(sc: &Scenario) -> J {
         }
     }
     spun |= settle_all(&mut pair, &mut jobs, &mut replied);
+    // a no-reply call is over (spec: pc = "done") once its handler has ended
+    for k in NOREPLY.lock().unwrap().iter() {
+        if LOG.lock().unwrap().iter().any(|e| e["e"] == "End" && e["k"] == *k) {
+            replied[*k as usize - 1] = true;
+        }
+    }
     let pending: Vec<u32> = (1..=n).filter(|k| !replied[*k as usize - 1]).collect();
     LOG.lock().unwrap().push(json!({"e": "Quiescent", "k": 0, "pending": pending}));
     let evs = LOG.lock().unwrap().clone();
@@ -493,7 +516,8 @@ pub fn random(class: &str, n: u64, seed: u64, out: &str) {
                 let props = (i / 2) % 2 == 1;
                 for _ in 0..nc {
                     let ny = rng.below(4);
-                    calls.push(CallCfg { kind: if rng.chance(1, 2) { "meth" } else { "methmut" }.into(), body: vec!['y'; ny as usize] });
+                    let kind = if rng.chance(1, 5) { "methnr" } else if rng.chance(1, 2) { "meth" } else { "methmut" };
+                    calls.push(CallCfg { kind: kind.into(), body: vec!['y'; ny as usize] });
                     if props && rng.chance(1, 3) {
                         calls.push(CallCfg { kind: if rng.chance(1, 2) { "get" } else { "set" }.into(), body: vec!['y'; 1 + rng.below(2) as usize] });
                     }
